@@ -265,3 +265,66 @@ package rapid
 //@   modifies drawn, t.failed, t.cleanups, t.ctx, t.cancelCtx, t.draws, g.elem.str, g.elem.strOnce
 //@   loop 0 invariant [C03] len(sl) == repeat.count && repeatInv(repeat) && groupUsed(repeat)
 //@   loop 0 invariant [C03] repeat.minCount == minOf(g.minLen) && repeat.maxCount == maxOf(g.maxLen)
+
+//@ func (*mapGen).value
+//@   requires [C03] g.key != nil || g.keyFn != nil
+//@   requires [C03] g.maxLen < 0 || g.minLen <= g.maxLen
+//@   requires [C03] g.minLen < 1<<52
+//@   ensures [C03] lenOK(len(result), g.minLen, g.maxLen)
+//@   panics any: true
+//@   modifies drawn, t.failed, t.cleanups, t.ctx, t.cancelCtx, t.draws, g.val.str, g.val.strOnce, g.key.str, g.key.strOnce
+//@   loop 0 invariant [C03] len(m) == repeat.count && repeatInv(repeat) && groupUsed(repeat)
+//@   loop 0 invariant [C03] repeat.minCount == minOf(g.minLen) && repeat.maxCount == maxOf(g.maxLen)
+
+// ---------------------------------------------------------------------------------------------
+// combinators.go
+
+//@ func find
+//@   requires [C03] tries >= 0 && gen != nil
+//@   panics any: true
+//@   modifies drawn, t.failed, t.cleanups, t.ctx, t.cancelCtx, t.draws
+//@   loop 0 invariant [C03] 0 <= n && n <= tries
+//@   loop 0 decreases tries - n
+
+//@ func (*sampledGen).value
+//@   requires [C03] len(g.slice) > 0
+//@   panics invalidData: true
+//@   modifies drawn
+
+//@ func (*oneOfGen).value
+//@   requires [C03] len(g.gens) > 0
+//@   panics any: true
+//@   modifies drawn, t.failed, t.cleanups, t.ctx, t.cancelCtx, t.draws
+
+//@ func (*ptrGen).value
+//@   ensures [C03] implies(!g.allowNil, result != nil)
+//@   panics any: true
+//@   modifies drawn, t.failed, t.cleanups, t.ctx, t.cancelCtx, t.draws
+
+//@ func (*permGen).value
+//@   ensures [C03] len(result) == len(g.slice)
+//@   panics invalidData: true
+//@   modifies drawn
+//@   loop 0 invariant [C03] repeatInv(repeat) && groupUsed(repeat) && i == repeat.count && repeat.maxCount == m && len(s) == n && n == len(g.slice)
+//@   loop 0 invariant [C03] m == ite(n - 1 < 0, 0, n - 1)
+
+//@ func (*boolGen).value
+//@   panics invalidData: true
+//@   modifies drawn
+
+//@ func (*integerGen).value
+//@   requires [C03] implies(g.signed, g.smin <= g.smax) && implies(!g.signed, g.umin <= g.umax)
+//@   panics invalidData: true
+//@   modifies drawn
+
+//@ func (*float64Gen).value
+//@   requires [C03] g.min <= g.max
+//@   ensures [C03] g.min <= result && result <= g.max
+//@   panics invalidData: true
+//@   modifies drawn
+
+//@ func (*float32Gen).value
+//@   requires [C03] g.min <= g.max && exact32(g.min) && exact32(g.max)
+//@   ensures [C03] g.min <= float64(result) && float64(result) <= g.max
+//@   panics invalidData: true
+//@   modifies drawn
